@@ -120,8 +120,9 @@ Inductive psignal :=
 | GRetNil (s : pstate).                        (* the closure returned nil *)
 
 (* what On<X>(x, fn) does with x: run fn on a view, do nothing (nil, or a conversion error that these callers drop),
-   or something the model does not describe (an On<struct> helper handed a list walks its members) *)
-Inductive pview := PwRun (d : pv) | PwSkip | PwOutside.
+   run fn on one view after the other (PwRunAll: OnObject handed a list walks its members; fn answers nil each time,
+   so the walk goes on), or something the model does not describe (the other On<struct> helpers handed a list) *)
+Inductive pview := PwRun (d : pv) | PwRunAll (ds : list pv) | PwSkip | PwOutside.
 
 (* what calls mean; None = a callee the environment does not know *)
 Record penv := mkpenv {
@@ -404,6 +405,17 @@ Section Exec.
               match pe_on E fn i with
               | PwOutside => Err
               | PwSkip => Ok (GNormal s)
+              | PwRunAll ds =>
+                  (fix all (ds : list pv) (s : pstate) {struct ds} : outcome psignal :=
+                     match ds with
+                     | [] => Ok (GNormal s)
+                     | d :: r =>
+                         obind (exec body (pbind param d s))
+                               (fun g => match g with
+                                         | GNormal s' | GRetNil s' => all r s'
+                                         | GRet _ => Err
+                                         end)
+                     end) ds s
               | PwRun d =>
                   obind (exec body (pbind param d s))
                         (fun g => match g with
@@ -508,6 +520,29 @@ Definition on_target (fn : bytes) : option kind :=
 Definition is_coll_kind (k : kind) : bool :=
   match k with KCollection | KCollectionPage | KOrdered | KOrderedPage => true | _ => false end.
 
+(* OnObject handed a list (helpers.go OnObject: OnItemCollection, then for each member `if IsNil(it) || IsLink(it)
+   { continue }; if err := OnObject(it, fn); err != nil { return err }`): the pointers fn is handed, in order -
+   nested lists opened, nil and Link members passed over, every other member converted with ToObject; the first
+   member ToObject refuses (a struct whose layout Object is no prefix of, an IRI that is not nil) ends the walk (the
+   flag is false then).  Hand-written after the code (the loops themselves are generated into Gen/OnT.v and proved
+   against Model/OnTab.visit); tied to the real NotEmpty by the list cases of Cases_C20_predlist *)
+Fixpoint walk_views (d : kind) (i : item) {struct i} : list pv * bool :=
+  match i with
+  | IItems _ (Some l) =>
+      (fix go (l : list item) : list pv * bool :=
+         match l with
+         | [] => ([], true)
+         | m :: r => if is_nil m || is_link m then go r
+                     else let (a, ok) := walk_views d m in
+                          if ok then let (b, ok') := go r in (a ++ b, ok') else (a, false)
+         end) l
+  | IItems _ None => ([], true)
+  | IIris _ lo => ([], forallb (fun s => is_nil (IIri false s)) (lst lo))
+  | IObj _ k fs => if Equal.cast_ok d k then ([VI (IObj true d fs)], true) else ([], false)
+  | IIri _ _ => ([], false)
+  | INil | ITNil _ => ([], true)
+  end.
+
 (* the pointer handed to fn: the value seen at the target type (the property list is shared: C08) *)
 Definition on_view (fn : bytes) (i : item) : pview :=
   if bytes_eqb fn (B "OnCollectionIntf") then
@@ -544,7 +579,11 @@ Definition on_view (fn : bytes) (i : item) : pview :=
            | IObj _ k fs => if Equal.cast_ok d k then PwRun (VI (IObj true d fs)) else PwSkip
            | IIri _ _ => match d with KLink => PwSkip
                                  | _ => if is_nil i then PwRun (VI (ITNil d)) else PwSkip end
-           | IItems _ _ | IIris _ _ => match d with KLink => PwSkip | _ => PwOutside end
+           | IItems _ _ | IIris _ _ => match d with
+                                       | KLink => PwSkip
+                                       | KObject => PwRunAll (fst (walk_views KObject i))
+                                       | _ => PwOutside
+                                       end
            end
        end.
 
